@@ -9,14 +9,21 @@ Open Scope nat_scope.
 Definition inb_obs (s : state) (i : nat) : iobs :=
   let a := act s i in
   {| o_res := match a_out a with
-              | Some (OWrote _ d _) => RWrote d
+              | Some (OWrote _ d _) => match a_wr a with Some WFail => RWrErr i d | _ => RWrote d end
               | Some (OErr e) => RErr e
               | Some OPanic => RPanic
+              | Some (OCrash _) => RCrash
               | None => RNone
               end;
      o_shared := match a_out a with Some (OWrote _ _ (Some _)) => true | _ => false end;
      o_cancelled := a_cancel a;
-     o_ans := a_ans a |}.
+     o_ans := a_ans a;
+     o_wr := a_wr a |}.
+
+(* the number of requests whose key is still registered *)
+Definition inb_registered (reqs : list req) (s : state) : nat :=
+  length (filter (fun i => match tbl s (rkey (Inb.rq reqs i)) with Some _ => true | None => false end)
+                 (seq 0 (length reqs))).
 
 Definition inb_observe (reqs : list req) (s : state) : list iobs := map (inb_obs s) (seq 0 (length reqs)).
 
@@ -46,7 +53,7 @@ Qed.
 Lemma leader_not_shared s j : Inv reqs s -> a_ref (act s j) = Some j -> o_shared (inb_obs s j) = false.
 Proof.
   intros HI Hr. unfold inb_obs. cbn.
-  destruct (a_out (act s j)) as [[k d [j'|]|e|]|] eqn:Ho; auto.
+  destruct (a_out (act s j)) as [[k d [j'|]|e| |f]|] eqn:Ho; auto.
   destruct (c_out_sh _ _ HI _ _ _ _ Ho) as (N & Hr' & _). congruence.
 Qed.
 
@@ -66,13 +73,13 @@ Proof.
   destruct w; reflexivity.
 Qed.
 
-Lemma check_actor_model s i :
-  inb_reach reqs s -> i < length reqs -> a_out (act s i) <> None ->
-  check_actor reqs (inb_observe reqs s) i = None.
+Lemma check_wrote_model s i k d f :
+  inb_reach reqs s -> i < length reqs -> a_out (act s i) = Some (OWrote k d f) ->
+  check_wrote false reqs (inb_observe reqs s) i d = None.
 Proof.
-  intros HR Hi Hout. pose proof (reach_inv _ _ HR) as HI.
-  unfold check_actor. rewrite (ob_observe _ _ _ Hi). unfold inb_obs. cbn [o_res o_shared o_cancelled o_ans].
-  destruct (a_out (act s i)) as [[k d [j|]|[a|a]|]|] eqn:Ho; try congruence.
+  intros HR Hi Ho. pose proof (reach_inv _ _ HR) as HI.
+  unfold check_wrote. rewrite (ob_observe _ _ _ Hi). unfold inb_obs. cbn [o_res o_shared o_cancelled o_ans].
+  rewrite Ho. cbn [andb]. destruct f as [j|].
   - (* shared result *)
     destruct (follower_bytes_l _ _ _ _ _ _ HR Ho) as (N & Hd & Hoj & Hb & Hk).
     destruct (c_out_sh _ _ HI _ _ _ _ Ho) as (_ & Hr & _).
@@ -108,7 +115,22 @@ Proof.
     unfold Spec.rq. unfold Inb.rq in *.
     destruct k; cbn [ans_of_kind]; cbn in Hb; rewrite Hb, bytes_eqb_refl; try reflexivity.
     rewrite (Hc eq_refl). reflexivity.
+Qed.
+
+Lemma check_actor_model s i :
+  inb_reach reqs s -> i < length reqs -> a_out (act s i) <> None ->
+  check_actor false reqs (inb_observe reqs s) i = None.
+Proof.
+  intros HR Hi Hout. pose proof (reach_inv _ _ HR) as HI.
+  destruct (a_out (act s i)) as [[k d f|[a|a]| |f]|] eqn:Ho; try congruence.
+  - (* bytes handed to the own writer: reported as written, or as the own writer's error *)
+    pose proof (check_wrote_model s i k d f HR Hi Ho) as CW.
+    unfold check_actor. rewrite (ob_observe _ _ _ Hi). unfold inb_obs. cbn [o_res o_wr]. rewrite Ho.
+    destruct (a_wr (act s i)) as [[| |]|] eqn:Hw; cbn [wr_is wans_eqb]; try exact CW.
+    rewrite Nat.eqb_refl. cbn [andb]. exact CW.
   - (* upstream error *)
+    unfold check_actor. rewrite (ob_observe _ _ _ Hi). unfold inb_obs. cbn [o_res o_shared o_cancelled o_ans].
+    rewrite Ho.
     destruct (c_out_up _ _ HI _ _ Ho) as [(-> & Ha)|(N & Hr & He & _)].
     + rewrite Nat.eqb_refl, Ha. reflexivity.
     + destruct (Nat.eqb_spec a i); [contradiction|].
@@ -117,12 +139,19 @@ Proof.
       destruct (c_err _ _ HI _ _ He) as (_ & Ha).
       rewrite (producer_intro s i a _ HI Hi Hr N Ha). reflexivity.
   - (* own context error *)
+    unfold check_actor. rewrite (ob_observe _ _ _ Hi). unfold inb_obs. cbn [o_res o_shared o_cancelled o_ans].
+    rewrite Ho.
     destruct (c_out_ctx _ _ HI _ _ Ho) as (-> & Hc). rewrite Nat.eqb_refl, Hc. reflexivity.
   - exfalso. exact (c_out_panic _ _ HI i Ho).
+  - (* own injected panic *)
+    unfold check_actor. rewrite (ob_observe _ _ _ Hi). unfold inb_obs. cbn [o_res o_ans o_wr]. rewrite Ho.
+    destruct (c_out_crash _ _ HI _ _ Ho) as (_ & [Ha|Hw]).
+    + rewrite Ha. reflexivity.
+    + rewrite Hw. cbn. rewrite orb_true_r. reflexivity.
 Qed.
 
 Lemma first_fail_all l os :
-  (forall i, In i l -> check_actor reqs os i = None) -> first_fail reqs os l = None.
+  (forall i, In i l -> check_actor false reqs os i = None) -> first_fail false reqs os l = None.
 Proof.
   induction l as [|x l IH]; cbn; intros H; [reflexivity|].
   rewrite (H x (or_introl eq_refl)). apply IH. intros i Hin. apply H. right. exact Hin.
@@ -130,10 +159,29 @@ Qed.
 
 Lemma spec_b_model s :
   inb_reach reqs s -> (forall i, i < length reqs -> a_out (act s i) <> None) ->
-  spec_b reqs (inb_observe reqs s) = None.
+  spec_b false reqs (inb_observe reqs s) = None.
 Proof.
   intros HR Hall. unfold spec_b. apply first_fail_all. intros i Hin.
   unfold actors in Hin. apply in_seq in Hin. apply check_actor_model; auto; try lia. apply Hall. lia.
+Qed.
+
+Lemma filter_none {A} (f : A -> bool) l : (forall x, In x l -> f x = false) -> filter f l = [].
+Proof.
+  induction l as [|x l IH]; cbn; intros H; [reflexivity|].
+  rewrite (H x (or_introl eq_refl)). apply IH. intros y Hy. apply H. right. exact Hy.
+Qed.
+
+(* at quiescence (everybody has returned) the checker with the registry clause passes as well *)
+Lemma spec_q_b_model s :
+  inb_reach reqs s -> (forall i, i < length reqs -> a_pc (act s i) = PDone) ->
+  spec_q_b false reqs (inb_observe reqs s) (inb_registered reqs s) = None.
+Proof.
+  intros HR Hall. unfold spec_q_b.
+  rewrite spec_b_model; auto.
+  2:{ intros i Hi. apply (returned_iff_outcome reqs s i HR). apply Hall. exact Hi. }
+  unfold inb_registered. rewrite filter_none; [reflexivity|].
+  intros i _. rewrite (quiescent_registry_empty_l reqs s HR); [reflexivity|].
+  intros j Hj. apply Hall. apply exists_lt. exact Hj.
 Qed.
 
 End S.
